@@ -1,6 +1,6 @@
 /* c09_isolation.c - C09: messages and units are isolated: nothing but status and errors carries over.
  * Bounded-exhaustive, differential: message set M = every single unit and every ordered pair of units over a
- * 43-unit alphabet (compound paths, common commands, parameters of every kind incl. malformed lists, queries
+ * 46-unit alphabet (compound paths, common commands, parameters of every kind incl. malformed lists, queries
  * that succeed / fail midway / leave a block unfinished / write block data without a header, invalid and
  * incomplete units), each NL-terminated.  For every ordered pair (A, B) in M x M (quick: A in M, B in singles
  * and a third of the pairs) the complete trace of B executed after A on the same context (handler invocations
@@ -13,7 +13,7 @@
 static const char * units[] = {
     "AAAA:Bb", "AAAA:Bb?", "Ee", ":AAAA:Dd:Ee", "Bb", "AAAA:Cc3", "*XY", "*XY?", "ZZ", "AAAA:ZZ",
     "I2 1,2", "I2 1", "I2 1,2,3", "I2 x,1", "I2 1,", "OPT", "OPT 5", "CH ON", "CH XYZ", "NUM 1 V", "NUM 1 ZZ", "TXT \"a;b\"", "TXT? 'x'",
-    "Q1?", "Q2?", "Q0?", "Q0E?", "Q1E?", "QPART?", "QTAIL?", "QB?", "Q1P? 5", "C0", "CE", "@", "", "AAAA:", "BLK #13a;b", "BLK #13a\nb", "ARR 1,2,x", "EXPR (1:2,5)", "AAAA:Gg:Ii", "AAAA:Gg",
+    "Q1?", "Q2?", "Q0?", "Q0E?", "Q1E?", "QPART?", "QTAIL?", "QB?", "Q1P? 5", "C0", "CE", "@", "", "AAAA:", "BLK #13a;b", "BLK #13a\nb", "ARR 1,2,x", "EXPR (1:2,5)", "AAAA:Gg:Ii", "AAAA:Gg", "I2 12,34", "DBL? 2.5", "OPT 7",
 };
 #define NU ((int) (sizeof units / sizeof units[0]))
 #define NM (NU + NU * NU)
@@ -108,6 +108,32 @@ int main(int argc, char ** argv) {
             size_t l1 = strlen(ev[1]);
             if (strncmp(ev[0], ev[1], l1) || strcmp(ev[0] + l1, ev[2]))
                 mc_viol("c09/unit-state-leaks-into-next-unit", "message [%s;%s]: events [%s]; units alone: [%s] + [%s]", mc_es(units[a]), mc_es(units[b]), mc_es(ev[0]), mc_es(ev[1]), mc_es(ev[2]));
+        }
+    }
+    /* A and the unterminated B in ONE input call, B executed by a zero-length flush, against B alone + flush (single-unit B) */
+    for (a = 0; a < NM; a++) {
+        int al = make_msg(a, ma);
+        if (a >= NU && (a % 7) != 0) continue;
+        for (b = 0; b < NU; b++) {
+            static char ref_tr[4096], ref_out[1024]; size_t ref_trn, ref_outn;
+            char both[300];
+            int bl = (int) strlen(units[b]);
+            if (!MC_CASE()) continue;
+            if (bl == 0 || strchr(units[b], '\n')) continue;
+            mc_case_tag = "flush-pair"; mc_case_s[0] = (const unsigned char *) ma; mc_case_n[0] = (size_t) al; mc_case_s[1] = (const unsigned char *) units[b]; mc_case_n[1] = (size_t) bl;
+            tc_reinit(&T, mt_cmds); tr_reset();
+            SCPI_Input(&T.ctx, units[b], bl);
+            if (TRN) continue;                          /* B executes without terminator?  not the case under test */
+            tr_reset(); SCPI_Input(&T.ctx, NULL, 0);
+            ref_trn = TRN; memcpy(ref_tr, TR, TRN + 1); ref_outn = OUTN; memcpy(ref_out, OUT, OUTN + 1);
+            memcpy(both, ma, (size_t) al); memcpy(both + al, units[b], (size_t) bl);
+            tc_reinit(&T, mt_cmds); tr_reset();
+            SCPI_Input(&T.ctx, both, al + bl);
+            if (T.ctx.buffer.position != (size_t) bl) continue;      /* A swallowed part of B (open block/string): not comparable */
+            tr_reset(); SCPI_Input(&T.ctx, NULL, 0);
+            n_pairs++;
+            if (TRN != ref_trn || memcmp(TR, ref_tr, TRN) || OUTN != ref_outn || memcmp(OUT, ref_out, OUTN))
+                mc_viol("c09/stale-input-leaks-into-flushed-message", "A [%s] and unterminated B [%s] in one call, then a zero-length call: trace [%s] output [%s]; B alone + zero-length call: trace [%s] output [%s]", mc_e(ma, (size_t) al), mc_es(units[b]), mc_es(TR), mc_e(OUT, OUTN), mc_es(ref_tr), mc_e(ref_out, ref_outn));
         }
     }
     if (mc_thorough) {       /* two-message histories: A1, A2 single units on separate lines, then B */
